@@ -6,8 +6,8 @@ from cmdline_check import run_cmdline_property, merge_cov
 
 def families(tier):
     if tier == "quick":
-        return D.api_variants(D.pos_family(SEED + 90, 45, maxlen=4, budget=4000), SEED + 9)
-    return D.api_variants(D.pos_family(SEED + 90, 200, maxlen=5, budget=40000), SEED + 9)
+        return D.api_variants(D.pos_family(SEED + 90, 45, maxlen=4, budget=4000), SEED + 9) + D.hidpos_family(SEED + 95, maxlen=3)
+    return D.api_variants(D.pos_family(SEED + 90, 200, maxlen=5, budget=40000), SEED + 9) + D.hidpos_family(SEED + 95, maxlen=4)
 
 
 def near_family(seed, n, maxlen=3):
